@@ -40,7 +40,7 @@ def run(ck):
     n = 0
     for name, a in an.items():
         n += ck.count_obligations(a.obligations(), 'C09.R1')
-    ck.rule('C09.R1 panic-freedom of encap, encap_frag, encap_ext and both previews', n, 600)
+    ck.rule('C09.R1 panic-freedom of encap, encap_frag, encap_ext and both previews', n, 190)
     # ---- R2 / R3 / R4 at the returns
     n_err = n_ok = 0
     for wname in WRITERS:
